@@ -276,6 +276,8 @@ func c04(r *Report, s *Sem) {
 	c04Dispatch(r, s, R6)
 	R7 := r.Rule("R7", "a response command is delivered exactly once also when its requester gave up: the pending entry is removed on every exit of the request path, so a late response misses the table and goes to the response stream", 1)
 	checkPendingCleanup(r, s, R7)
+	r.Import(s, "C12", "R4", "R8", "TCP: the JSON encoder/decoder of a transport work straight on the connection wrapper (no intermediate buffer that survives a failed send and is flushed with the next envelope: exactly once, nothing delivered that was not sent)", 5)
+	r.Import(s, "C01", "R1", "R9", "intact content over the network transports: every exported field of every envelope kind and document wrapper is written by its encoder and restored by its decoder (a decoder that rebuilds a value through a constructor drops what the constructor derives, e.g. a collection's total)", 60)
 }
 
 func isDeferredClosure(parent, anon *ssa.Function) bool {
@@ -708,6 +710,7 @@ func c05(r *Report, s *Sem) {
 	wl := hl[lookup.in]["W:"+muName] && hl[del.in]["W:"+muName]
 	r.Check(R5, "func "+fnName(handoff)+" / lookup and delete in one critical section", p.instrPos(del.in), sameSection && wl && instrDominates(lookup.in, del.in),
 		fmt.Sprintf("delete reached from the lookup without an unlock=%v, both under the write lock=%v (otherwise a cancelled request's id can be re-registered in the gap and the new entry deleted)", sameSection, wl))
+	r.Import(s, "C04", "R3", "R6", "a response that matches no pending request is surfaced, not lost: the receiver forwards it to the response stream by a blocking select without a dropping default arm, on the miss edge of the pending-table hand-off", 1, "ResponseCommand")
 }
 
 func tableOperand(in ssa.Instruction) ssa.Value {
